@@ -752,7 +752,13 @@ struct Drop {
 /// a distribution of `n` leaves with indices 0..n; `indexed`: a perfect positional tree
 /// (padded with distinct filler leaves) so that the leaf's index is its position
 fn make_drop(e: &Env, alg: Alg, indexed: bool, n: usize, tag: u32, rng: &mut Rng) -> Drop {
-    let leaves: Vec<Leaf> = (0..n).map(|i| Leaf { index: i as u32, amount: rng.i128_nonneg() >> 40, tag }).collect();
+    let mut leaves: Vec<Leaf> = (0..n).map(|i| Leaf { index: i as u32, amount: rng.i128_nonneg() >> 40, tag }).collect();
+    // in the sorted form the index is only data of the leaf: every other distribution carries the two
+    // highest legal indices (u32::MAX - 1, u32::MAX) on its last two leaves
+    if !indexed && n >= 4 && rng.chance(50) {
+        leaves[n - 2].index = u32::MAX - 1;
+        leaves[n - 1].index = u32::MAX;
+    }
     let mut hs: Vec<H32> = leaves.iter().map(|l| leaf_hash(e, alg, l)).collect();
     let shape = if indexed {
         let mut p = 1;
